@@ -81,6 +81,12 @@ Proof. exact print_file_roundtrip_partial_lemma. Qed.
 Print Assumptions C30_print_file_roundtrip_partial.
 
 (* per_decl_concat: the per-declaration prints concatenate to the source minus the trailing trivia *)
+Theorem C30_per_decl_concat : forall toks,
+  wf_toks toks ->
+  exists ds tail, print_decls cfg_fixed toks = Some (ds, tail) /\ concat ds ++ tail = source_text toks.
+Proof. exact per_decl_concat_lemma. Qed.
+Print Assumptions C30_per_decl_concat.
+
 Theorem C30_per_decl_concat_refuted :
   exists toks ds tail, wf_toks toks /\ print_decls cfg_asis toks = Some (ds, tail) /\
                        concat ds ++ tail <> source_text toks.
